@@ -318,7 +318,8 @@ theorem exec_no_panic (f : Fixes) (hf : MdmFixed f) (pdLen : Nat) (rd : Nat → 
     · exact ih ⟨hp.env, fun c hc => hp.imm c (by simp [hc])⟩ _ _ _ _ k' s
 
 /-- **no_panic (RHP3 execute-program handler).** -/
-theorem handle_no_panic (f : Fixes) (hf : MdmFixed f) (hs : f.revisionSum = true) (s : HostState) (r : Request)
+theorem handle_no_panic (f : Fixes) (hf : MdmFixed f) (hs : f.revisionSum = true) (hr : f.rollbackRefundsUsage = true)
+    (s : HostState) (r : Request)
     (hp : ProgOK r.pdLen r.rd r.prices r.duration r.prog) (k : Nat) (site : Site) :
     (handle f s r).1 ≠ .panic k site := by
   unfold handle
@@ -330,7 +331,7 @@ theorem handle_no_panic (f : Fixes) (hf : MdmFixed f) (hs : f.revisionSum = true
     generalize execInstrs f r.pdLen r.rd r.prices r.duration { budget := r.budget, spent := r.initCost } s.roots 0 [] r.prog = eo at hne
     cases eo with
     | panic k' s' => exact absurd rfl (hne k' s')
-    | failed k' a outs => simp [settle]
+    | failed k' a outs => simp [settle, refundOf, hr]
     | done a roots outs =>
       simp only [settle]
       split
@@ -507,6 +508,11 @@ example : CurrentOK { pdLen := 16, rd := rdOf [(0, 128), (8, 64)] } 3 (.readOffs
 
 /-! ## 3. reject_noop -/
 
+/-- booking the announced refund does not touch the budget accounting -/
+theorem bookCost_eq (a a' : Acc) (ci : CInstr) :
+    (bookCost a a' ci).budget = a'.budget ∧ (bookCost a a' ci).spent = a'.spent ∧ (bookCost a a' ci).storage = a'.storage := by
+  unfold bookCost; split <;> simp
+
 /-- accounting invariant of the executor: the budget is never exceeded -/
 theorem exec_acc (f : Fixes) (pdLen : Nat) (rd : Nat → Nat) (prices : Prices) (duration : Nat) (prog : List CInstr) :
     ∀ (a : Acc) (roots : List Nat) (k : Nat) (outs : List (Option Nat)), a.spent ≤ a.budget → a.storage ≤ a.spent →
@@ -531,14 +537,16 @@ theorem exec_acc (f : Fixes) (pdLen : Nat) (rd : Nat → Nat) (prices : Prices) 
       · intro a' roots' outs' h; simp at h
       · intro k' a' outs' h
         simp at h; obtain ⟨rfl, rfl, _⟩ := h
+        obtain ⟨hb1, hb2, hb3⟩ := bookCost_eq a a1 ci
         simp; omega
     · rename_i a1 heq
       have hr := run_acc _ a a1 h1 h2 (Or.inl heq)
-      have := ih a1
+      obtain ⟨hb1, hb2, hb3⟩ := bookCost_eq a a1 ci
+      have := ih (bookCost a a1 ci)
         (applyRoots { pdLen := pdLen, rd := rd, prices := prices, duration := duration, cost := ci.cost, storage := ci.storage } roots (1000 + k) ci.i)
         (k + 1)
         (outLen { pdLen := pdLen, rd := rd, prices := prices, duration := duration, cost := ci.cost, storage := ci.storage } roots.length ci.i :: outs)
-        hr.2.1 hr.2.2.1
+        (by omega) (by omega)
       constructor
       · intro a' roots' outs' h
         have := this.1 a' roots' outs' h; omega
@@ -558,7 +566,7 @@ theorem reject_noop_refused (f : Fixes) (s s' : HostState) (r : Request)
   · generalize execInstrs f r.pdLen r.rd r.prices r.duration { budget := r.budget, spent := r.initCost } s.roots 0 [] r.prog = eo at h
     cases eo with
     | panic k' s' => simp [settle] at h
-    | failed k' a outs => simp [settle] at h
+    | failed k' a outs => simp only [settle] at h; split at h <;> simp at h
     | done a roots outs =>
       simp only [settle] at h
       split at h
@@ -590,11 +598,15 @@ theorem reject_noop_failed (f : Fixes) (s s' : HostState) (r : Request) (k : Nat
     | panic k' s' => simp [settle] at h
     | failed k' a outs' =>
       have := hacc.2 k' a outs' rfl
-      simp [settle] at h
-      obtain ⟨⟨rfl, _⟩, rfl⟩ := h
-      simp at this ⊢
-      refine ⟨by omega, ?_, by omega⟩
-      intro hk; omega
+      simp only [settle] at h
+      split at h
+      · rename_i href
+        simp at h
+        obtain ⟨⟨rfl, _⟩, rfl⟩ := h
+        simp at this ⊢
+        refine ⟨by omega, ?_, by omega⟩
+        intro hk; omega
+      · simp at h
     | done a roots outs' =>
       simp only [settle] at h
       split at h
@@ -616,7 +628,7 @@ theorem panic_state (f : Fixes) (s s' : HostState) (r : Request) (k : Nat) (site
   · generalize execInstrs f r.pdLen r.rd r.prices r.duration { budget := r.budget, spent := r.initCost } s.roots 0 [] r.prog = eo at h
     cases eo with
     | panic k' s'' => simp [settle] at h; exact h.2.symm
-    | failed k' a outs => simp [settle] at h
+    | failed k' a outs => simp only [settle] at h; split at h <;> simp at h; exact h.2.symm
     | done a roots outs =>
       simp only [settle] at h
       split at h
@@ -642,7 +654,7 @@ theorem accept_charge (f : Fixes) (s s' : HostState) (r : Request) (outs : List 
     generalize execInstrs f r.pdLen r.rd r.prices r.duration { budget := r.budget, spent := r.initCost } s.roots 0 [] r.prog = eo at h hacc
     cases eo with
     | panic k' s' => simp [settle] at h
-    | failed k' a outs' => simp [settle] at h
+    | failed k' a outs' => simp only [settle] at h; split at h <;> simp at h
     | done a roots outs' =>
       have := hacc.1 a roots outs' rfl
       simp at this
@@ -1204,5 +1216,92 @@ example : (renew Fixes.all .renew3 { rev := 6, roots := [1, 2, 3], balance := 10
 example : (renew Fixes.all .form2 { rev := 6, roots := [1, 2, 3], balance := 10 } { fcMissed := 2 }).1 = .reject := by decide
 /-- before 1ee75c4 `rpcFormContract` converted a short key -/
 example : (renew Fixes.none .form2 { rev := 6, roots := [1, 2, 3], balance := 10 } { keyLen := 5 }).1 = .panic .rpcFormContract := by decide
+
+/-! ## 10. rollback: the refund arithmetic of `programExecutor.rollback` (cost vs usage buckets)
+
+`payForExecution` adds an instruction's cost to `pe.cost` and its usage to the budget.  For sector
+instructions `cost.Storage` is booked as `usage.StorageRevenue`; registry instructions book it as
+`RegistryRead`/`RegistryWrite`.  `rollback()` refunds `pe.usage.StorageRevenue`; `budget.Refund`
+subtracts per bucket and panics on underflow. -/
+
+/-- **rollback_no_panic.**  With the refund taken from the usage bucket (the code as written) the
+rollback branch never panics, whatever program prefix ran and whatever the instructions announced. -/
+theorem rollback_no_panic (f : Fixes) (hr : f.rollbackRefundsUsage = true) (s : HostState) (r : Request)
+    (k : Nat) (a : Acc) (outs : List (Option Nat)) (k' : Nat) (site : Site) :
+    (settle f s r (.failed k a outs)).1 ≠ .panic k' site := by
+  simp [settle, refundOf, hr]
+
+/-- for every program and every instruction at which it fails: refund ≤ StorageRevenue bucket ≤ spent ≤ budget -/
+theorem rollback_refund_le_spent (f : Fixes) (hr : f.rollbackRefundsUsage = true) (r : Request) (roots : List Nat)
+    (hinit : r.initCost ≤ r.budget) (k : Nat) (a : Acc) (outs : List (Option Nat))
+    (h : execInstrs f r.pdLen r.rd r.prices r.duration { budget := r.budget, spent := r.initCost } roots 0 [] r.prog = .failed k a outs) :
+    refundOf f a ≤ a.storage ∧ a.storage ≤ a.spent ∧ a.spent ≤ r.budget := by
+  have hacc := (exec_acc f r.pdLen r.rd r.prices r.duration r.prog { budget := r.budget, spent := r.initCost } roots 0 []
+    (by simpa using hinit) (by simp)).2 k a outs h
+  simp at hacc
+  simp only [refundOf, hr, if_true]
+  omega
+
+/-- **accounting clause of reject_noop, exact form.**  A program that failed at instruction `k` is charged
+what ran minus the refund: the balance drops by `spent - refund` of the accumulator at the failure. -/
+theorem failed_charge_exact (f : Fixes) (s s' : HostState) (r : Request) (k : Nat) (outs : List (Option Nat))
+    (h : handle f s r = (.failed k outs, s')) (hk : k < r.prog.length ∨ needsFinalization r.prog = false) :
+    ∃ a, execInstrs f r.pdLen r.rd r.prices r.duration { budget := r.budget, spent := r.initCost } s.roots 0 [] r.prog = .failed k a outs ∧
+      s'.balance = s.balance - (a.spent - refundOf f a) ∧ refundOf f a ≤ a.storage := by
+  unfold handle at h
+  split at h
+  · simp at h
+  split at h
+  · rename_i hadm
+    have hinit : r.initCost ≤ r.budget := by
+      simp only [admitted, Bool.and_eq_true, decide_eq_true_eq] at hadm; exact hadm.1.2
+    have hacc := exec_acc f r.pdLen r.rd r.prices r.duration r.prog { budget := r.budget, spent := r.initCost } s.roots 0 []
+      (by simpa using hinit) (by simp)
+    generalize hgen : execInstrs f r.pdLen r.rd r.prices r.duration { budget := r.budget, spent := r.initCost } s.roots 0 [] r.prog = eo at h hacc
+    cases eo with
+    | panic k' s' => simp [settle] at h
+    | failed k' a outs' =>
+      simp only [settle] at h
+      split at h
+      · rename_i href
+        simp at h
+        obtain ⟨⟨rfl, rfl⟩, rfl⟩ := h
+        exact ⟨a, rfl, rfl, href⟩
+      · simp at h
+    | done a roots outs' =>
+      have hd := hacc.1 a roots outs' rfl
+      simp only [settle] at h
+      split at h
+      · rename_i hfin
+        rcases hk with hk | hk
+        · cases hfr : r.fin <;> simp [hfr] at h
+          · omega
+          · split at h <;> simp at h; omega
+        · simp [hk] at hfin
+      · simp at h
+  · simp at h
+
+/-- the variant that refunds the announced `pe.cost.Storage`: a single paid ReadRegistry of a key that was never
+written (no contract, paid from an account) fails after payment; its storage cost sits in the RegistryRead bucket,
+the StorageRevenue bucket is empty, `budget.Refund` underflows in the deferred rollback -/
+theorem refund_announced_panics :
+    (handle { Fixes.all with rollbackRefundsUsage := false } { rev := 6, roots := [1, 2, 3], balance := 1000 }
+      { budget := 500, initCost := 1, hasContract := false, pdLen := 80, rd := rdOf [],
+        prog := [ { i := .readRegistry 32 48 0 1 true false, cost := 100, storage := 0, cstorage := 40 } ] }).1
+      = .panic 0 .rollback := by decide
+
+/-- the code as written charges the same request for what ran (nothing is refundable) -/
+example :
+    handle Fixes.all { rev := 6, roots := [1, 2, 3], balance := 1000 }
+      { budget := 500, initCost := 1, hasContract := false, pdLen := 80, rd := rdOf [],
+        prog := [ { i := .readRegistry 32 48 0 1 true false, cost := 100, storage := 0, cstorage := 40 } ] }
+      = (.failed 0 [], { rev := 6, roots := [1, 2, 3], balance := 1000 - 101 }) := by decide
+
+/-- for sector instructions the two buckets coincide, so both variants refund the same amount -/
+example :
+    handle { Fixes.all with rollbackRefundsUsage := false } { rev := 6, roots := [1, 2, 3], balance := 1000 }
+      { budget := 500, initCost := 1, hasContract := true, pdLen := SectorSize + 16, rd := rdOf [(SectorSize, 0), (SectorSize + 8, 9)],
+        prog := [ { i := .appendSector 0 false, cost := 100, storage := 60, cstorage := 60 }, { i := .swapSector SectorSize (SectorSize + 8) false, cost := 7 } ] }
+      = (.failed 1 [some 0], { rev := 6, roots := [1, 2, 3], balance := 1000 - (1 + 100 + 7 - 60) }) := by decide
 
 end Hostd.Mdm
